@@ -120,6 +120,7 @@ type FnCtx struct {
 	usedLemmas []string
 	sortWitness [][2]string
 	seeds []string
+	termSorts map[string]string
 	known map[string]map[string]string // heap version -> alloc address -> stored value (syntactic store forwarding)
 	skolemFacts []string
 }
